@@ -1,8 +1,15 @@
 #!/bin/bash
-# offline: install the z3 wheel next to the framework (the repo's own venv supplies the repo's dependencies)
+# offline: install the z3 wheel next to the framework (the repo's own venv supplies the repo's dependencies),
+# then run the proxy self-test (every proxy operation against CPython) and stamp the engine hash
 set -e
 HERE="$(cd "$(dirname "$0")" && pwd)"
 if [ ! -d "$HERE/.deps/z3" ]; then
   PIP_NO_INDEX=1 /venv/bin/python -m pip install -q --no-index --find-links /opt/veriftools/wheels --target "$HERE/.deps" z3-solver
 fi
-PYTHONPATH="$HERE/.deps" /venv/bin/python -c "import z3; print('z3', z3.get_version_string())"
+export PYTHONPATH="$HERE:$HERE/.deps" PYTHONDONTWRITEBYTECODE=1
+/venv/bin/python -c "import z3; print('z3', z3.get_version_string())"
+cd "$HERE"
+want=$(sha256sum sx/engine.py | cut -d' ' -f1)
+if ! grep -q "$want" .deps/selftest.json 2>/dev/null; then
+  /venv/bin/python -B -m sx.selftest .deps/selftest.json
+fi
